@@ -557,6 +557,17 @@ def wf_val(tc, v, asn4):
     return False
 
 
+KNOWN_NLRI_NO_ATTR = 'C06-nlri-without-attributes'
+
+
+def in_ranges_msg(m, asn4):
+    """the stated ranges without the side conditions (Coq: in_ranges)"""
+    ps = m['withdraw'] + m['nlri']
+    tcs = [tc for tc, _ in m['attrs']]
+    return all(l <= 32 and a < TWO32 and mask(a, l) == a for a, l in ps) and len(set(tcs)) == len(tcs) \
+        and all(wf_val(tc, v, asn4) for tc, v in m['attrs']) and size_ok(m, asn4)
+
+
 def wf_msg(m, asn4):
     ps = m['withdraw'] + m['nlri']
     if not all(l <= 32 and a < TWO32 and mask(a, l) == a for a, l in ps):
@@ -817,7 +828,26 @@ def run(ctx):
                 elif p != want:
                     why = 'decoded %r, given %r' % (p, want)
             if why:
-                viol.append({'what': 'UPDATE round trip: ' + why[:1500], 'input': desc, 'known': None})
+                viol.append({'what': 'UPDATE round trip: ' + why[:1500], 'input': desc, 'known': None,
+                             'abstract': {'asn4': asn4, 'm': m, 'style': style}})
+    # ---- known-finding class: announced prefixes without attributes are not sent.  Reported only
+    #      once the maintainer has merged the id into known_findings.json (until then the class is a
+    #      visible restriction of the domain: wf_msg / Coq wf) ----
+    if any(k['id'] == KNOWN_NLRI_NO_ATTR for k in common.known_findings('C06')):
+        for asn4, m, wf, kind in msgs:
+            if kind != 'outside-domain' or not m['nlri'] or m['attrs'] or not in_ranges_msg(m, asn4):
+                continue
+            n_oracle += 1
+            why = oracle_one(m, asn4)
+            if why is None:
+                continue        # fixed: nothing to report
+            r = impl_construct(m, asn4)
+            recorded = (r == [0, []]) if not m['withdraw'] else (
+                r[0] == 0 and r[1] and impl_parse(bytes(r[1][0])[19:], asn4) ==
+                [0, [[list(p) for p in m['withdraw']], [], [], []]])
+            viol.append({'what': 'announced prefixes without attributes are not sent: ' + why[:300],
+                         'input': describe(kind, asn4, m), 'abstract': {'asn4': asn4, 'm': m, 'style': 0},
+                         'known': KNOWN_NLRI_NO_ATTR if recorded else None})
     # ---- attribute-list level (parse_attributes / construct_attributes directly) ----
     for asn4, m, wf, kind in msgs[::(3 if ctx.thorough else 12)]:
         d = dict((tc, py_val(tc, v)) for tc, v in m['attrs'])
@@ -866,29 +896,34 @@ def run(ctx):
                       'message_kinds': kinds, 'case_outcomes(kind:0=value,1=bgp-error,2=exception)': outcomes}}
 
 
+def oracle_one(m, asn4, style=0):
+    """the round-trip property on one abstract message: None if it holds, else what was observed"""
+    r = impl_construct(m, asn4, style)
+    if r[0] != 0 or not r[1]:
+        return 'construct gives %r for a message inside the stated ranges' % (r,)
+    msg = bytes(r[1][0])
+    if not (msg[:16] == b'\xff' * 16 and struct.unpack('!HB', msg[16:19]) == (len(msg), 2)):
+        return 'bad header'
+    p = impl_parse(msg[19:], asn4)
+    want = [0, canon_input(m)]
+    if p != want:
+        return 'decoded %r, given %r' % (p, want)
+    return None
+
+
 def replay(ctx, obj):
-    """re-run one stored violation: input = [kind, asn4, yabgp message dict]"""
-    from yabgp.message.update import Update
+    """re-run one stored violation (the abstract message recorded with it) on the implementation"""
     v = obj.get('violation', obj)
-    inp = v.get('input')
     print(v.get('what'))
-    if not isinstance(inp, list) or len(inp) < 3 or not isinstance(inp[2], dict):
-        print('no replayable message in', inp)
+    ab = v.get('abstract')
+    if not ab:
+        print('no replayable message stored with', v.get('input'))
         return 1
-    asn4, d = inp[1], inp[2]
-    d = dict(d)
-    if 'attr' in d:
-        d['attr'] = dict((int(k), (tuple(x) if int(k) in (7,) else x)) for k, x in d['attr'].items())
-        if 2 in d['attr']:
-            d['attr'][2] = [(t, a) for t, a in d['attr'][2]]
-    try:
-        msg = Update.construct(d, asn4)
-        r = Update.parse(None, msg[19:], asn4)
-        print('given  ', d)
-        print('decoded', {k: r[k] for k in ('withdraw', 'attr', 'nlri', 'sub_error')})
-        same = (r['withdraw'] == d.get('withdraw', []) and r['nlri'] == d.get('nlri', []) and r['sub_error'] is None)
-        print('prefix lists equal:', same)
-        return 0 if same else 1
-    except Exception as e:
-        print('raises', type(e).__name__, e)
+    m, asn4 = ab['m'], ab['asn4']
+    print('message given to Update.construct (asn4=%s): %r' % (asn4, py_msg(m, ab.get('style', 0))))
+    why = oracle_one(m, asn4, ab.get('style', 0))
+    if why:
+        print('STILL FAILS: ' + why[:2000])
         return 1
+    print('round trip holds now')
+    return 0
